@@ -7,7 +7,7 @@ from mc.core import Acc
 
 ID = "C15"
 RULE = ("E-INPUT: every ordered pair of distinct domain instants from a set of datetimes spanning 1900..2200 (epoch neighbours, "
-        "leap day, year ends, ms-resolution instants: 40 instants, thorough 408; + a seeded instant), plus domains of 1 ms .. 61 s at every instant, x 3 ranges (scale built domain-then-range, range-then-domain, or by re-domaining a live scale, in rotation) x query instants "
+        "leap day, year ends, ms-resolution instants: 40 instants, thorough 408; + a seeded instant), plus domains of 1 ms .. 61 s at every instant, x 3 ranges (scale built domain-then-range, range-then-domain, by re-domaining a live scale, or around a caller-owned inner LinearScale that is re-ranged after first use, in rotation; every other query instant is an instance of a datetime subclass) x query instants "
         "(end points, 5 interior fractions, 4 exterior points) through the real TimeScale. Oracle: exact affine map on naive "
         "epoch milliseconds (rationals); invert within 1 ms inside the domain; agreement with LinearScale on the oracle's "
         "milliseconds. Non-trivial: query strictly inside or outside the domain.")
@@ -34,7 +34,11 @@ def bounds(tier, seed):
             "queries_per_domain": 2 + len(FRACS) + len(EXT)}
 
 
-ORDERS = ("domain-range", "range-domain", "redomain")
+ORDERS = ("domain-range", "range-domain", "redomain", "inner-linear")
+
+
+class Stamp(datetime):
+    """A datetime subclass (what pandas.Timestamp or pendulum.DateTime are): still a naive wall-clock instant."""
 
 
 def make_scale(t0, t1, rng, order):
@@ -43,6 +47,15 @@ def make_scale(t0, t1, rng, order):
         return TimeScale().domain([t0, t1]).range(list(rng))
     if order == "range-domain":
         return TimeScale().range(list(rng)).domain([t0, t1])
+    if order == "inner-linear":
+        # the documented constructor argument: the caller owns the inner linear scale and re-ranges it later
+        from labella.scale import LinearScale
+        inner = LinearScale()
+        s = TimeScale(linear=inner).domain([t0, t1]).range([7, 8])
+        for q in (t0, t1, t0 + (t1 - t0) / 2):
+            s(q)
+        inner.range(list(rng))
+        return s
     s = TimeScale().domain([datetime(2000, 1, 1), datetime(2001, 1, 1)]).range(list(rng))
     return s.domain([t0, t1])  # a live scale gets a new domain
 
@@ -75,6 +88,8 @@ def judge(t0, t1, rng, acc=None, order="domain-range"):
             continue
         frac = (ms - m0) / (m1 - m0)
         exact = F(rng[0]) + (F(rng[1]) - F(rng[0])) * frac
+        if len(pts) % 2:  # every other query instant is an instance of a datetime subclass
+            t = Stamp(t.year, t.month, t.day, t.hour, t.minute, t.second, t.microsecond)
         try:
             y = s(t)
             back = s.invert(y)
@@ -126,7 +141,7 @@ def run_shard(shard):
             if t1 < t0:
                 acc.counters["reversed_domains"] += 1
             for ri, rng in enumerate(RANGES):
-                order = ORDERS[(k + ri) % 3]
+                order = ORDERS[(k + ri) % 4]
                 bad = judge(t0, t1, rng, acc, order)
                 acc.evals += 1
                 acc.trans += 1
@@ -141,7 +156,7 @@ def run_shard(shard):
                 acc.states += 1
                 acc.counters["short_domains"] += 1
                 for ri, rng in enumerate(RANGES):
-                    order = ORDERS[(bi + ri) % 3]
+                    order = ORDERS[(bi + ri) % 4]
                     bad = judge(a, b, rng, acc, order)
                     acc.evals += 1
                     acc.trans += 1
